@@ -404,6 +404,13 @@ class World:
             return True  # another holder (reachable from another handle) keeps it alive anyway
         return not any(id(x) in members for k, x in self.handles.items() if k != h)
 
+    def op_set_config(self, op: dict[str, Any]) -> str:
+        """A configuration change between operations (the legacy nodes must not care)."""
+        import pyoak.config as pcfg
+
+        pcfg.ID_DIGEST_SIZE = op["digest"]
+        return "ok"
+
     def op_drop(self, op: dict[str, Any]) -> str:
         if op["h"] not in self.handles or not self.droppable(op["h"]):
             raise SkipOp("no handle / not droppable")
@@ -826,9 +833,9 @@ class Gen:
         if allowed == ("LLeaf",):
             cls = "LLeaf"
         elif depth <= 0 or r.random() < 0.4:
-            cls = r.choice(["LLeaf", "LLeaf", "LLeafB"])
+            cls = r.choice(["LLeaf", "LLeaf", "LLeafB", "LBlock"] if self.cfg.get("falsy") else ["LLeaf", "LLeaf", "LLeafB"])
         else:
-            cls = r.choice(["LInner", "LInner", "LReq"])
+            cls = r.choice(["LInner", "LInner", "LReq", "LBlock"] if self.cfg.get("falsy") else ["LInner", "LInner", "LReq"])
         if allowed == ("any",) and r.random() < self.cfg["p_ref"]:
             cands = [h for h in self.free_nodes() if h not in used and id(self.w.handles[h]) not in self.exclude and self.usable_child(h)]
             if cands:
@@ -849,6 +856,10 @@ class Gen:
             ch["lst"] = [self.spec(depth - 1, used=used) for _ in range(r.choice([0, 0, 1, 2]))]
             if r.random() < 0.3:
                 ch["only_leaf"] = self.spec(0, ("LLeaf",), used=used)
+        elif cls == "LBlock":
+            # empty (falsy) most of the time when it is a leaf position
+            n = 0 if depth <= 0 or r.random() < 0.5 else r.choice([1, 2])
+            ch["kids"] = [self.spec(depth - 1, used=used) for _ in range(n)]
         else:
             p["tag"] = r.choice(self.cfg["strs"])
             ch["req"] = self.spec(depth - 1, used=used)
@@ -918,6 +929,9 @@ class Gen:
         if len(walk(o)) > 10:
             return None
         return {"op": "new", "spec": spec_of(o), "out": self.out()}
+
+    def g_set_config(self) -> dict[str, Any] | None:
+        return {"op": "set_config", "digest": self.r("cfg").choice([4, 8, 16, 32])}
 
     def g_drop(self) -> dict[str, Any] | None:
         names = [h for h in self.w.handles if self.w.droppable(h)]
@@ -1376,7 +1390,7 @@ REJECT_KINDS = [
 def make_config(rseed: int, prop: str, tier: str, faults: bool) -> dict[str, Any]:
     rng = Rng(rseed)
     r = rng.s("config")
-    weights = {"new": 5, "twin": 1.5, "drop": 1.5, "attach": 2, "detach": 3, "replace": 4, "replace_with": 3, "duplicate": 1.5, "transform": 1.5, "transformer": 1, "stale": 0.8}
+    weights = {"new": 5, "twin": 1.5, "drop": 1.5, "attach": 2, "detach": 3, "replace": 4, "replace_with": 3, "duplicate": 1.5, "transform": 1.5, "transformer": 1, "stale": 0.8, "set_config": 0.3}
     for k in list(weights):
         if k == "new":
             continue
@@ -1398,6 +1412,7 @@ def make_config(rseed: int, prop: str, tier: str, faults: bool) -> dict[str, Any
         "origins": r.sample(["no", "c:a:0-5", "g:a", "x:b:/r"], r.choice([1, 2])),
         "weights": weights,
         "reject_kinds": REJECT_KINDS if r.random() < 0.6 else r.sample(REJECT_KINDS, 4),
+        "falsy": r.random() < 0.4,
     }
 
 
